@@ -187,6 +187,20 @@ def run(ctx):
         ok = w in (AC + "::save_incremental", AC + "::save_with_options")
         ctx.ob("R9-cursor", "save_cursor written by %s" % w.split("::")[-1], ok, f.fns[[p for p in fns if norm_fn(p) == w][0]]["sp"],
                "a saving entry point" if ok else "%s moves the incremental-save cursor: a later save_incremental() omits changes that were never written by it" % w.split("::")[-1])
+    # ---------------- the cursor is only ever *assigned* (to the heads): no in-place growth. A `&mut self.save_cursor` handed to a call
+    # (extend / push / append / insert / retain ..) adds or removes hashes that are not the document's heads
+    for p in fns:
+        r = f.fns[p]
+        b = cfg.body(r)
+        if b.argc < 1 or util.base_ty(b.local_ty(1)) != AC:
+            continue
+        for bi, t in b.calls():
+            if not t.get("args") or not t.get("argtys") or not t["argtys"][0].startswith("&mut"):
+                continue
+            o = b.operand_origin(t["args"][0])
+            if o and o[0] == 1 and ".save_cursor" in o[1]:
+                ctx.ob("R9-cursor", "%s|save_cursor mutated in place by %s" % (norm_fn(p).split("::")[-1], (norm_fn(t.get("fn")) or "?").split("::")[-1]), False, t["sp"],
+                       "the incremental-save cursor is edited in place: it no longer equals the heads at the time of the save, so a later save_incremental() can skip changes (ancestors of a hash that was added) or repeat them")
     # ---------------- load_incremental's replace-the-document fast path
     li = ctx.body(DOC + "::load_incremental_log_patches")
     whole = [(bi, st) for bi, blk in enumerate(li.blocks) if not blk.get("cleanup") for st in blk["st"]
